@@ -1,4 +1,4 @@
 SPECIFICATION Spec
-CONSTANTS Kinds <- KindsDef  MaxLen = 5
+CONSTANTS Kinds <- KindsDef  MaxLen = 0  Seqs <- FileSeqs
 INVARIANTS DescentMeetsGrammar PositionInside
 CHECK_DEADLOCK FALSE
